@@ -200,9 +200,12 @@ func (u *Universe) plans(st *SpecTables) map[string]*PropPlan {
 		Units: cat(decV2, rtLemmas("v2", st.V2)), Assumptions: a1,
 		Meta: []string{"Direction accepted => canonical: postcondition [C08] of each Decode for every string: the object is valid, groups are all-or-nothing and the input string IS the canonical concatenation of the decoded codes (so it is one of the canonical vectors). Direction canonical => accepted: scenarios canon_s6/s9/s11/s14 (constructor-fresh and nil receiver): for every canonical vector of the level with symbolic valid codes the decoder is executed exactly (the token list of a structured string is known by A1) and accepts with exactly those fields. Higher-level groups offered to a lower decoder are rejected by the first direction."},
 	}
+	queryObj := func(alias string) []Unit {
+		return objFuncs(alias, "GetError", "Encode", "String", "Score", "Severity", "BaseMetrics", "TemporalMetrics", "IsEmpty")
+	}
 	P["C09"] = &PropPlan{ID: "C09", Title: "a decoded object holds exactly the values written in the vector",
-		Units: cat(decV3, decV2), Assumptions: a1,
-		Meta: []string{"[C09] postconditions of every Decode: version and each field equal the parse of the value of the (unique) token with that name; unwritten v3 temporal/environmental metrics are Not Defined, v2 group name flags are set iff a token of the group was written (IsEmpty contracts). Order independence: the postcondition determines every field from the SET {(name, value)} of tokens (names are pairwise distinct on accepted vectors), so two accepted vectors with the same token set give equal fields; scores depend on fields only (Score contracts). X explicit vs omitted: parse(\"X\") is the Not Defined value, which is also the constructor's default - same fields, same scores, same encoding."},
+		Units: cat(decV3, decV2, queryObj("v3m"), queryObj("v2m")), Assumptions: a1,
+		Meta: []string{"[C09] postconditions of every Decode: version and each field equal the parse of the value of the (unique) token with that name; unwritten v3 temporal/environmental metrics are Not Defined, v2 group name flags are set iff a token of the group was written (IsEmpty contracts). Order independence: the postcondition determines every field from the SET {(name, value)} of tokens (names are pairwise distinct on accepted vectors), so two accepted vectors with the same token set give equal fields; scores depend on fields only (Score contracts). X explicit vs omitted: parse(\"X\") is the Not Defined value, which is also the constructor's default - same fields, same scores, same encoding. The object keeps holding these values: every query carries 'modifies nothing' (frame obligations of Score, Severity, GetError, Encode, String, accessors)."},
 	}
 	encUnits := cat(objFuncs("v3m", "Encode", "String"), objFuncs("v2m", "Encode", "String"))
 	P["C10"] = &PropPlan{ID: "C10", Title: "encoding is canonical; decode-encode-decode is the identity",
